@@ -75,6 +75,10 @@ def gen_program(rng: random.Random, mapping: str, big: bool = False) -> dict:
              {"k": "call", "n": "shadowD", "as": [E(0x41), E(0x1234)]},
              {"k": "for", "v": "DEFB", "a": E(0), "b": E(2), "body": [dbn("DEFB")]},
              {"k": "scope", "n": "nsD", "b": [{"k": "label", "n": "DEFA"}, {"k": "data", "d": "dl", "es": [E("DEFA")]}]}]
+    # ... and so may the source's own top level: a label named like a definition is the label from there on (a patch with its own `done:`)
+    if rng.random() < 0.5:
+        tail += [{"k": "label", "n": "DEFC"}, {"k": "data", "d": "dl", "es": [E("DEFC")]}, {"k": "ins", "m": "bra", "shape": "rel", "sz": "", "e": E("DEFC")},
+                 {"k": "sym", "n": "DEFB", "e": E(0x4321)}, {"k": "data", "d": "dw", "es": [E("DEFB")]}]
     # a translation table with accented letters and kana: the file front ends read the same characters as the in-memory API is handed
     p.setdefault("tables", {})["uni_c12.tbl"] = [["8a", "\u00e9"], ["8b", "\u30a2"], ["8c", "\u00df"], ["01", "c"], ["02", "a"], ["03", "f"]]
     tail += [{"k": "block", "b": [{"k": "table", "f": "uni_c12.tbl"}, {"k": "text", "t": "caf\u00e9 \u30a2\u00dfa"}, {"k": "label", "n": "after_uni"},
